@@ -252,7 +252,7 @@ def ddmin(items: list, test: Any, budget: list[int]) -> list:
     return cur
 
 
-def minimise(mod: Any, rec: dict, budget_runs: int = 120) -> dict:
+def minimise(mod: Any, rec: dict, budget_runs: int | None = None) -> dict:
     """In-process minimisation (runs in a dedicated worker via `check minimise`)."""
     kind = getattr(mod, "MINIMIZE", None)
     key = {"schedule": "schedule", "ops": "ops"}.get(kind or "")
@@ -260,6 +260,8 @@ def minimise(mod: Any, rec: dict, budget_runs: int = 120) -> dict:
         return rec
     sig = rec["signature"]
     original = rec[key]
+    if budget_runs is None:
+        budget_runs = int(getattr(mod, "MINIMIZE_BUDGET", 120))
     budget = [budget_runs]
 
     def test(candidate: list) -> bool:
@@ -449,9 +451,11 @@ def finish(prop: str, tier: str, base_seed: int, mod: Any, plan: list[dict], res
     if errors:
         for e in errors[:10]:
             print("HARNESS-ERROR:", e[:2000], file=sys.stderr)
-        return 2
     if unlisted:
+        # a violation that replayed in a fresh interpreter stands even if other runs had harness errors
         return 1
+    if errors:
+        return 2
     if not results:
         print("HARNESS-ERROR: no runs executed", file=sys.stderr)
         return 2
